@@ -325,13 +325,13 @@ pub fn sequence(t: i32, r: &mut Rng, c: &Cfg, min_n: usize, max_n: usize, varian
     }
 }
 
-/// Amounts straddling powers of two (2^j - 1, 2^j, 2^j + 1 for j = 10, 12, 13 and, thorough,
+/// Amounts straddling powers of two (2^j - 1, 2^j, 2^j + 1 for j = 8, 9, 10, 12, 13 and, thorough,
 /// up to 2^16): record counts, point counts and part counts of the "large" cases. Caps on
 /// pre-allocation, buffer sizes and growth policies change behaviour at such amounts, and a
 /// defect behind one never shows on the handful-of-elements inputs that dominate a workload.
 pub fn threshold_sizes(thorough: bool) -> Vec<usize> {
     let mut v = vec![];
-    for j in [10usize, 12, 13] {
+    for j in [8usize, 9, 10, 12, 13] {
         v.extend_from_slice(&[(1 << j) - 1, 1 << j, (1 << j) + 1]);
     }
     if thorough {
